@@ -302,5 +302,10 @@ def entryWF (e : BuiltinEntry) : Bool :=
 
 theorem gen_table_wf : Scenic.Gen.specTable.all entryWF = true := by decide +kernel
 
+/-- shape fact of `_resolveSpecifiers` extracted from the source: `modifying_inv` maps a modifying specifier to
+the list of *all* the properties it modifies and `dfs` visits the specifier of each of them -- which is what
+`Scenic.Spec.modProps` / `Scenic.Spec.steps` model (the shape before /repo commit fe083d88 kept one property only) -/
+theorem gen_modifier_orders_all : Scenic.Gen.modifierOrdersAllProps = true := by decide
+
 
 end Scenic.C06
